@@ -1,8 +1,118 @@
 /- Line-protocol driver of the codegen cluster (see lakefile.toml). -/
 import FfcxModel.Driver.Loop
 import FfcxModel.Driver.Codegen
+import FfcxModel.LNodes.Scalars
+import FfcxProofs.C10Codegen
 
-open Ffcx
+open Ffcx Ffcx.LNodes Ffcx.Codegen
+
+/-! ## Tie (iv): exact execution of the REAL block statements vs the closed-form specification
+    (`blockSum` / `diagSum` / `tensorSum…` of `FfcxProofs`), over `Rat`, on seeded dyadic data -/
+
+namespace ExecTie
+
+def lcg (s : Nat) : Nat := (s * 1103515245 + 12345) % 2147483648
+
+/-- `n` seeded dyadic rationals in `[-2, 2]` (multiples of 1/8) and the next seed -/
+def dyadics : Nat → Nat → List Rat × Nat
+  | 0, s => ([], s)
+  | n + 1, s =>
+    let s' := lcg s
+    let (r, s'') := dyadics n s'
+    let v : Rat := ((((s' / 65536) % 33 : Nat) : Int) - 16 : Int)
+    (v / 8 :: r, s'')
+
+/-- tables a group reads: name ↦ (points, dofs) extents needed -/
+def tablesOf (g : GroupDesc) : List (String × Nat × Nat) :=
+  let raw : List (String × Nat × Nat) := (g.blocks.map (fun b => (b.args.map (fun a =>
+    match a.table.factors, g.rule.factors with
+    | some fs, some ms => (fs.zip ms).map (fun (f, m) => (f.1, m, f.2))
+    | some fs, none => fs.map (fun f => (f.1, g.rule.nweights, f.2))
+    | none, _ => [(a.table.name, g.rule.nweights, a.table.ndofs)])).flatten)).flatten
+  raw.foldl (fun acc (n, qn, dn) =>
+    match acc.find? (fun e => e.1 == n) with
+    | some e => acc.map (fun e' => if e'.1 == n then (n, max e.2.1 qn, max e.2.2 dn) else e')
+    | none => acc ++ [(n, qn, dn)]) []
+
+def mkState (g : GroupDesc) (st : GenState) (seed : Nat) : St Rat × List Int :=
+  let N := (g.aShape.foldr (· * ·) 1)
+  let s0 := lcg (seed + 17)
+  -- quadrature point
+  let (iqs, qvs, s1) : List (String × Int) × List Int × Nat :=
+    match g.rule.factors with
+    | none =>
+      let q := if g.rule.nweights == 0 then 0 else (s0 / 7) % g.rule.nweights
+      ([("iq", (q : Int))], [(q : Int)], lcg s0)
+    | some ms =>
+      let qs : List Nat := (List.range ms.length).map (fun d => (s0 / (7 + d)) % (max 1 (ms.getD d 1)))
+      ((List.range ms.length).map (fun d => (s!"iq{d}", ((qs.getD d 0 : Nat) : Int))),
+        qs.map (fun q => ((q : Nat) : Int)), lcg s0)
+  -- tables [2][3][Q][D]
+  let (sa, s2) := (tablesOf g).foldl (fun (acc : AList (Arr Rat) × Nat) (n, qn, dn) =>
+    let (vals, s') := dyadics (2 * 3 * (max 1 qn) * (max 1 dn)) acc.2
+    (acc.1 ++ [(n, { dims := [2, 3, max 1 qn, max 1 dn], data := vals.toArray })], s')) ([], s1)
+  let wname := if g.custom then "weights_chunk" else s!"weights_{g.rule.id}"
+  let (wv, s3) := dyadics (max 1 g.rule.nweights) s2
+  let sa := sa ++ [(wname, { dims := [max 1 g.rule.nweights], data := wv.toArray }),
+                   (aName, { dims := [N], data := (List.replicate N (0 : Rat)).toArray })]
+  -- the fw temporaries (and any other scalar symbol the fw expressions read)
+  let (sv, s4) := (fwExprs g st g.blocks).foldl (fun (acc : AList Rat × Nat) e =>
+    match e with
+    | .sym n _ =>
+      if (acc.1.find? (fun p => p.1 == n)).isSome then acc
+      else let (v, s') := dyadics 1 acc.2; (acc.1 ++ [(n, v.headD 1)], s')
+    | _ => acc) ([], s3)
+  let e0 := (s4 / 3) % 3
+  let e1 := (s4 / 11) % 3
+  let p0 := (s4 / 5) % 2
+  let p1 := (s4 / 13) % 2
+  ({ iv := iqs, sv := sv, sa := sa,
+     ia := [("entity_local_index", #[(e0 : Int), (e1 : Int)]), ("quadrature_permutation", #[(p0 : Int), (p1 : Int)])] },
+   qvs)
+
+def tfDimsOf (a : ArgDesc) : List Nat := (a.table.factors.getD []).map (·.2)
+
+/-- the closed form for the kind of group, entry by entry; `none`: no closed form proved for it -/
+def closedForm (g : GroupDesc) (st : GenState) (σ : St Rat) (qvs : List Int) : Option (String × List Rat) :=
+  let N := (g.aShape.foldr (· * ·) 1)
+  let fws := fwExprs g st g.blocks
+  let q := qvs.headD 0
+  if regularGroup g && coversA g then
+    some ("blockSum", (List.range N).map (blockSum ratExtra g fws σ q))
+  else if diagonalGroup g then
+    some ("diagSum", (List.range N).map (diagSum ratExtra g fws σ q))
+  else if tensorGroupB g st then
+    match g.rule.factors, g.blocks.head? with
+    | some ms, some b0 =>
+      (match b0.args with
+       | [a0] => some ("tensorSum1", (List.range N).map (tensorSum1 ratExtra g (tfDimsOf a0) fws σ qvs))
+       | [a0, a1] => some ("tensorSum2", (List.range N).map
+           (tensorSum2 ratExtra g ms.length (tfDimsOf a0) (tfDimsOf a1) fws σ qvs))
+       | _ => none)
+    | _, _ => none
+  else none
+
+/-- `(block_exec group state (quadpart…) seed)` → `(ok equal|differ form (exec…) (spec…))` | `(skip why)` -/
+def handle (args : List Sexp) : Except String Sexp := do
+  match args with
+  | [g, st, qp, seed] =>
+    let g ← Driver.CG.readGroup g
+    let st ← Driver.CG.readState st
+    let qp ← (← qp.asList).mapM readStmt
+    let (σ, qvs) := mkState g st (← seed.asNat)
+    match closedForm g st σ qvs with
+    | none => return .list [.atom "skip", .atom "no-closed-form"]
+    | some (form, spec) =>
+      match execL ratExtra qp σ with
+      | .error e => return .list [.atom "ok", .atom "exec-error", .atom form, .atom (reprStr e)]
+      | .ok σ' =>
+        let got := ((σ'.sa.get aName).map (·.data.toList)).getD []
+        let same := got == spec
+        return .list [.atom "ok", .atom (if same then "equal" else "differ"), .atom form,
+          .list (got.map Sexp.ofRat), .list (spec.map Sexp.ofRat)]
+  | _ => throw "block_exec: expected (block_exec group state (quadpart…) seed)"
+
+end ExecTie
 
 def dispatch (req : Sexp) : Except String Sexp :=
   match req with
@@ -22,6 +132,12 @@ def dispatch (req : Sexp) : Except String Sexp :=
     | "gen_partition" => Driver.handleGenPartition args
     | "loop_wf" => Driver.handleLoopWf args
     | "block_wf" => Driver.handleBlockWf args
+    | "spec_link" => Driver.handleSpecLink args
+    | "blockmap_check" => Driver.handleBlockmapCheck args
+    | "values_link" => Driver.handleValuesLink args
+    | "diag_pair" => Driver.handleDiagPair args
+    | "tensor_rule" => Driver.handleTensorRule args
+    | "block_exec" => ExecTie.handle args
     | _ => .error s!"unknown command {cmd}"
   | _ => .error "request must be a list"
 
